@@ -612,10 +612,11 @@ def process_response(
             except KeyError as error:
                 # it is ensured that every TPM_CC maps to a type in types_map
                 # i.e. list(TPM_CC) is a subgroup of list(types_map.keys())
-                # TODO
+                # The command code comes from the caller (in a stream: from the preceding command, which may have
+                # been cut short before its commandCode), so it can be unknown or missing altogether.
                 value_constraint = ValueConstraint(
-                    constraint_path=path + PathNode(selector_name),
-                    tpm_type=selector_type,
+                    constraint_path=path + PathNode("commandCode"),
+                    tpm_type=TPM_CC,
                     valid_values=ValidValues(TPM_CC),
                 )
                 raise ValueConstraintViolatedError(
